@@ -20,6 +20,7 @@ import (
 	"net/netip"
 	"net/url"
 	"os"
+	"strings"
 	"sync"
 	"time"
 
@@ -101,7 +102,15 @@ type Spec struct {
 	// FakeTrackers, when non-nil, are handed to tor.New instead of the
 	// trackers ReadTorrent would build from Announce/AnnounceList.
 	FakeTrackers [][]tracker.Tracker
+	// LegacyPaths: the file names of the spec are carried under "path.utf-8",
+	// and "path" holds another (legacy code page) spelling of each component.
+	// LegacyName: likewise "name.utf-8" / "name".  Clients that know the
+	// .utf-8 keys - storrent does - use those.
+	LegacyPaths, LegacyName bool
 }
+
+// Legacy is the other spelling the legacy keys carry.
+func Legacy(s string) string { return "legacy~" + strings.ToUpper(s) }
 
 func (s *Spec) Total() int64 {
 	if s.Files == nil {
@@ -139,12 +148,22 @@ func (s *Spec) Metainfo() (file, info []byte) {
 		pieces = []byte{}
 	}
 	id := map[string]any{"name": s.Name, "piece length": s.PieceLen, "pieces": pieces}
+	if s.LegacyName && s.Name != "" {
+		id["name"], id["name.utf-8"] = Legacy(s.Name), s.Name
+	}
 	if s.Files == nil {
 		id["length"] = s.Length
 	} else {
 		fl := []any{}
 		for _, f := range s.Files {
 			fd := map[string]any{"length": f.Length, "path": toList(f.Path)}
+			if s.LegacyPaths {
+				var lp []string
+				for _, c := range f.Path {
+					lp = append(lp, Legacy(c))
+				}
+				fd["path"], fd["path.utf-8"] = toList(lp), toList(f.Path)
+			}
 			if f.Pad {
 				fd["attr"] = "p"
 			}
